@@ -1,7 +1,7 @@
 package main
 
 func init() {
-	props["C05"] = &propImpl{files: []string{"h_lib.go", "h_pipe.go", "h_corpus.go"}, run: runC05}
+	props["C05"] = &propImpl{files: []string{"h_lib.go", "h_pipe.go", "h_corpus.go", "h_units.go"}, run: runC05}
 	props["C08"] = &propImpl{files: []string{"h_lib.go", "h_pipe.go", "h_corpus.go"}, run: runC08}
 	props["C10"] = &propImpl{files: []string{"h_lib.go", "h_pipe.go", "h_corpus.go"}, run: runC10}
 }
@@ -16,6 +16,7 @@ func tierEvery(c *Check, quick, thorough int) int {
 func runC05(c *Check) error {
 	c.Assumptions = append(c.Assumptions, stdAssumptions...)
 	c.TriviaEmpty = true
+	unitJobsC05(c)
 	every := tierEvery(c, 4, 1)
 	rich := c.Tier == "thorough"
 	for _, ver := range []string{"7.4", "5.6"} {
